@@ -35,6 +35,9 @@ func rulesC18(c *Ctx) {
 	// "whatever contexts the request and the executor carry": an executor without a context carries
 	// context.Background(), the identity MergeContexts tests
 	c01DefaultContext(c)
+	// "retried exactly for the documented retryable errors": the builders' AbortOnErrors / HandleIf go through the shared
+	// registrars (one condition per listed error)
+	c12Registrars(c)
 }
 
 func rulesC19(c *Ctx) {
